@@ -108,7 +108,7 @@ source_adapt(ByteSource source, void *driver, void *buf, const size_t n)
         rest -= rc;
     }
 
-    return 0;
+    return (ssize_t)n;
 }
 
 static inline ssize_t
